@@ -29,7 +29,8 @@ ASSUMPTIONS = [
 
 KEYS = [("a", False), ("b", False), ("c", False), ("a", False), ("b", False), ("1", False), ("1.0", False), ("0x1", False),
         ("true", False), ("1", True), ("~", False), ("null", False), ("x y", False), ("2001-01-01", False), ("d", False),
-        ("<<", True), ("0o1", False), ("01", False), ("60", False), ("yes", False), ("True", False), ("!!str k", False), ("!!int 1", False)]
+        ("<<", True), ("0o1", False), ("01", False), ("60", False), ("yes", False), ("True", False), ("!!str k", False), ("!!int 1", False),
+        ("=", False), ("=", True)]       # the YAML 1.1 'value' key: an ordinary key '=' for mappings
 # scalar nodes whose tag makes them build an unhashable value (or fail): ill-shaped keys, drawn rarely
 ILL_KEYS = [("!!seq x", False), ("!!map x", False), ("!!set x", False), ("!!omap x", False)]
 VALUES = [("1", False), ("2", False), ("x", False), ("y", False), ("z", False), ("", True), ("~", False), ("true", False),
@@ -217,6 +218,8 @@ def eval_doc(case):
     try:
         ref, ordered = ref_construct.evaluate(node)
         ref_err = None
+    except ref_construct.NoClaim as e:
+        return Eval([], sorted(cl | {"no-claim:%s" % str(e)[:40]}), nontrivial=False, ident=text, evals=1)
     except ref_construct.RefError as e:
         ref, ordered, ref_err = None, set(), str(e)
         cl.add("ill-shaped:%s" % str(e).split(" (")[0][:40])
